@@ -520,6 +520,11 @@ func runC08(c *fw.Ctx) {
 		func() gen.Stmt { return &gen.Save{Sent: &gen.SentValue{All: true, E: gen.As("USD")}, From: gen.A("a")} },
 		func() gen.Stmt { return &gen.Save{Sent: &gen.SentValue{E: gen.M("COIN", "5")}, From: gen.A("a")} },
 		func() gen.Stmt { return &gen.Save{Sent: fixed("-1"), From: gen.A("a")} },
+		func() gen.Stmt { return &gen.Save{Sent: &gen.SentValue{E: gen.V("s")}, From: gen.A("a")} },
+		func() gen.Stmt { return &gen.Save{Sent: &gen.SentValue{E: gen.V("s")}, From: gen.A("c")} },
+		func() gen.Stmt {
+			return &gen.Send{Sent: &gen.SentValue{E: gen.V("s")}, Src: &gen.SrcInorder{Srcs: []gen.Source{gen.SA("a"), gen.SA("world")}}, Dst: gen.DA("b")}
+		},
 		func() gen.Stmt { return &gen.Send{Sent: fixed("1"), Src: gen.SA("a"), Dst: gen.DA("b")} },
 		func() gen.Stmt { return &gen.Send{Sent: fixed("3"), Src: gen.SA("a"), Dst: gen.DA("b")} },
 		func() gen.Stmt { return &gen.Send{Sent: fixed("6"), Src: gen.SA("a"), Dst: gen.DA("b")} },
@@ -549,7 +554,7 @@ func runC08(c *fw.Ctx) {
 			x := k
 			hasSave := false
 			for j := 0; j < l; j++ {
-				if x%na <= 6 {
+				if x%na <= 8 {
 					hasSave = true
 				}
 				x /= na
@@ -564,14 +569,14 @@ func runC08(c *fw.Ctx) {
 			if !c.Want(base+n, id) {
 				continue
 			}
-			sc := &gen.Script{}
+			sc := &gen.Script{Vars: []*gen.VarDecl{{Type: "monetary", Name: "s"}}}
 			x = k
 			for j := 0; j < l; j++ {
 				sc.Stmts = append(sc.Stmts, alphabet[x%na]())
 				x /= na
 			}
 			for _, b := range bals {
-				cs := mkCase(sc, nil, map[string]string{"a/USD": b, "c/USD": "3", "a/COIN": "4"})
+				cs := mkCase(sc, map[string]string{"s": "USD 7"}, map[string]string{"a/USD": b, "c/USD": "3", "a/COIN": "4"})
 				if e, ok := run(c, cs); ok {
 					c.Count("systematic_cases", 1)
 					mon(e, "sys")
